@@ -123,6 +123,24 @@ class KeyStoreCollector(ast.NodeVisitor):
                 self.inits[t.id] = n.value
 
 
+_INPUTS_CACHE: dict = {}
+
+
+def _inputs_name(lfi) -> str:
+    """the loader's local that holds the parsed input file: the target of  <x> = loads(...) / json.load(s)(...)"""
+    if id(lfi.node) not in _INPUTS_CACHE:
+        nm = None
+        for s_ in ast.walk(lfi.node):
+            if isinstance(s_, ast.Assign) and len(s_.targets) == 1 and isinstance(s_.targets[0], ast.Name) and isinstance(s_.value, ast.Call) \
+                    and attr_chain(s_.value.func) in ("loads", "load", "json.loads", "json.load"):
+                nm = s_.targets[0].id
+                break
+        if nm is None:
+            raise AnalysisError(f"{lfi.qualname}: the parsed input file (x = loads(...)) was not found")
+        _INPUTS_CACHE[id(lfi.node)] = nm
+    return _INPUTS_CACHE[id(lfi.node)]
+
+
 def schema_props(prog: Program, name: str):
     s = prog.schemas.get(name)
     if s is None:
@@ -162,7 +180,7 @@ def check(prog: Program, tier: str) -> Result:
     # K7
     loader_sections = set()
     for n in ast.walk(lfi.node):
-        if isinstance(n, ast.Subscript) and isinstance(n.value, ast.Name) and n.value.id == "inputs" and isinstance(n.slice, ast.Constant):
+        if isinstance(n, ast.Subscript) and isinstance(n.value, ast.Name) and n.value.id == _inputs_name(lfi) and isinstance(n.slice, ast.Constant):
             loader_sections.add(n.slice.value)
     ok = set(sections) == fs_req
     res.ob("K7", f"sections written {sorted(sections)} = required by file_structure.schema.json", ok, prog.loc(wfi, wfi.node))
@@ -369,9 +387,9 @@ def _check_loader(prog: Program, res: Result, lfi, sec_tabs):
     for n in ast.walk(lfi.node):
         if isinstance(n, ast.Assign) and len(n.targets) == 1 and isinstance(n.targets[0], ast.Name):
             v = n.value
-            if isinstance(v, ast.Subscript) and isinstance(v.value, ast.Name) and v.value.id == "inputs" and isinstance(v.slice, ast.Constant):
+            if isinstance(v, ast.Subscript) and isinstance(v.value, ast.Name) and v.value.id == _inputs_name(lfi) and isinstance(v.slice, ast.Constant):
                 sec_of[n.targets[0].id] = v.slice.value
-            if (isinstance(v, ast.Subscript) and isinstance(v.value, ast.Subscript) and isinstance(v.value.value, ast.Name) and v.value.value.id == "inputs"
+            if (isinstance(v, ast.Subscript) and isinstance(v.value, ast.Subscript) and isinstance(v.value.value, ast.Name) and v.value.value.id == _inputs_name(lfi)
                     and isinstance(v.value.slice, ast.Constant) and isinstance(v.slice, ast.Constant)):
                 sec_of[n.targets[0].id] = (v.value.slice.value, v.slice.value)
     # reads with the enum branch they are under
@@ -730,7 +748,7 @@ def _check_roundtrip(prog: Program, res: Result, sec_tabs):
     props_var = {}
     for n in ast.walk(lfi.node):
         if isinstance(n, ast.Assign) and len(n.targets) == 1 and isinstance(n.targets[0], ast.Name) and isinstance(n.value, ast.Subscript) \
-                and isinstance(n.value.value, ast.Name) and n.value.value.id == "inputs" and isinstance(n.value.slice, ast.Constant):
+                and isinstance(n.value.value, ast.Name) and n.value.value.id == _inputs_name(lfi) and isinstance(n.value.slice, ast.Constant):
             props_var[n.targets[0].id] = n.value.slice.value
     n_mgr = 0
     for dname, key, val, guards, node in ks.stores:
